@@ -232,6 +232,17 @@ fn one_case(t: i32, i: usize, ctx: &Ctx, rep: &mut Report, dir: &str) {
         }
     }
 
+    // ---- every accessor of the shapes read back (and of the shapes written) tells the same story
+    if let Ok(read_back) = ShapeReader::new(Cursor::new(shp.clone())).and_then(|r| r.read()) {
+        for (k, s) in read_back.iter().chain(shapes.iter()).enumerate() {
+            rep.count("shapes_checked_for_accessor_agreement", 1);
+            if let Some(which) = panicmon::catch(|| crate::dump::accessor_disagreement(s)).unwrap_or(Some("panic".into())) {
+                rep.violation(&format!("accessors/{}/{}", type_name(t), which), &case, J::obj(vec![("shape_index", J::UInt((k % n.max(1)) as u64)), ("side", J::s(if k < read_back.len() { "read back" } else { "as constructed" })), ("shape", s.d().to_json())]));
+                break;
+            }
+        }
+    }
+
     // ---- compare every route with the expectation
     let mut role_obs: BTreeMap<(usize, usize), i32> = BTreeMap::new();
     for (route, out) in &routes {
